@@ -20,6 +20,34 @@ def content (g : Ring) : List Nat :=
 
 /-! ## construction -/
 
+/-- `zix_ring_new` refuses exactly the sizes whose rounding does not fit 32 bits — zero and
+everything above 2^31 — and no others (before the repair such a ring had a zero-byte buffer and a
+capacity of 2^32 - 1). -/
+theorem ring_new_refuses_iff (s : Nat) (h : s < 2 ^ 32) :
+    new? s = none ↔ (s = 0 ∨ 2 ^ 31 < s) := by
+  unfold new?
+  constructor
+  · intro hn
+    by_cases h0 : s = 0
+    · exact Or.inl h0
+    · by_cases hb : 2 ^ 31 < s
+      · exact Or.inr hb
+      · obtain ⟨k, _, hk, _, _⟩ := nextPow2_spec s (by omega) (by omega)
+        have hpos : 0 < 2 ^ k := Nat.pow_pos (by decide)
+        split at hn
+        · omega
+        · cases hn
+  · rintro (h0 | hb)
+    · subst h0; simp [nextPow2_zero]
+    · simp [nextPow2_big s hb h]
+
+/-- A ring that is created is the one `new` describes (so every theorem below applies to it). -/
+theorem ring_new_some (s : Nat) (h1 : 1 ≤ s) (h2 : s ≤ 2 ^ 31) : new? s = some (new s) := by
+  obtain ⟨k, _, hk, _, _⟩ := nextPow2_spec s h1 h2
+  have hpos : 0 < 2 ^ k := Nat.pow_pos (by decide)
+  unfold new?
+  rw [if_neg (by omega)]
+
 /-- For 1 ≤ s ≤ 2^31 the bit smear returns the least power of two ≥ s. -/
 theorem next_pow2_spec (s : Nat) (h1 : 1 ≤ s) (h2 : s ≤ 2 ^ 31) :
     ∃ k, k ≤ 31 ∧ nextPow2 s = 2 ^ k ∧ s ≤ 2 ^ k ∧ (k = 0 ∨ 2 ^ (k - 1) < s) := by
